@@ -106,6 +106,13 @@ def run(ctx):
                         "the second/first model of a fusion with observable state is the TableLM double (strict: it trusts the threaded state)"]
     design(ctx)
     work = ctx.subdir("lmstate")
+    import warnings
+
+    with warnings.catch_warnings():  # import once, before the replay workers are forked (torch.jit.script deprecation notices)
+        warnings.simplefilter("ignore")
+        import pydrobert.torch.modules  # noqa: F401
+
+        from ..doubles import tablelm  # noqa: F401
     # (a) exhaustive
     depth = 3 if ctx.quick else 4
     tables, behs, res = lms.run_free(ctx, FREE, depth, work)
